@@ -113,6 +113,61 @@ def rule_r2(repo):
     return rr
 
 
+def rule_r2_full(repo):
+    """Thorough tier: the property's own quantifier -- every parameter name of the bundled layouts x editions 2,3,4 x section 2
+    present / absent x explicit section index 0..5 and out of range."""
+    rr = RuleResult('C17.R2t', 'metadata lookup folded over every parameter name x edition x section 2 present/absent x section index')
+    fi = repo.own_method('MetadataQuerent', 'query')
+
+    class Q(SecInterp):
+        def on_load_attr(self, base, attr, node, frame):
+            if isinstance(base, Obj) and base.cls == 'MetadataQuerent' and attr == 'metadata_expr_parser':
+                return Obj('MetadataExprParser', {})
+            return self.NOT_HANDLED
+    n = 0
+    for ed in (2, 3, 4):
+        for present in (True, False):
+            secs = []
+            values = {}
+            for idx in repo.section_indices():
+                if idx == 2 and not present:
+                    continue
+                lay = repo.layout(idx, ed)
+                ps = []
+                for k, pr in enumerate(lay.get('parameters', [])):
+                    v = 'v%d_%d' % (idx, k)
+                    values[(idx, pr['name'])] = v
+                    ps.append(param(pr['name'], pr.get('nbits', 0), pr.get('type', 'uint'), value=v))
+                secs.append((idx, ps))
+            names = sorted(set(nm for (_, nm) in values))
+
+            def msg():
+                return Obj('BufrMessage', {'sections': [SectionModel([Obj(p.cls, dict(p.fields)) for p in ps], {'index': i}) for i, ps in secs]})
+            order = [i for i, _ in secs]
+            for nm in names:
+                exprs = [('%' + nm, None)] + [('%%%d.%s' % (k, nm), k) for k in (0, 1, 2, 3, 4, 5, 6, 9)]
+                for expr, k in exprs:
+                    if k is None:
+                        want = None
+                        for i in order:
+                            if (i, nm) in values:
+                                want = values[(i, nm)]
+                                break
+                    else:
+                        want = values.get((k, nm)) if k in order else None
+                    it = Q(repo, 'MetadataQuerent')
+                    res = it.run_function(fi, lambda: {'self': Obj('MetadataQuerent', {}), 'bufr_message': msg(), 'metadata_expr': expr}, self_class='MetadataQuerent')
+                    n += 1
+                    if len(res) != 1 or not res[0].ok or res[0].value != want:
+                        rr.fail('MetadataQuerent.query:full', fi.where, 'edition %d, section 2 %s: query(%r) gives %s, expected %r' % (
+                            ed, 'present' if present else 'absent', expr, [r.value if r.ok else r.describe() for r in res], want),
+                            witness={'edition': ed, 'section2': present, 'expr': expr})
+            rr.instance('edition %d, section 2 %s: %d names x 9 forms' % (ed, 'present' if present else 'absent', len(names)))
+    rr.extra = {'queries_folded': n}
+    rr.require_floor(6)
+    return rr
+
+
 def rule_r3(repo):
     rr = RuleResult('C17.R3', 'metadata-only decoding stops before the data section; configuration transformers leave the shared layouts untouched')
     info = repo.own_method('SectionConfigurer', 'info_configuration')
@@ -230,6 +285,8 @@ def rule_r4(repo):
 def run(repo, check):
     check.run_rule(rule_r1, repo)
     check.run_rule(rule_r2, repo)
+    if check.tier == 'thorough':
+        check.run_rule(rule_r2_full, repo)
     check.run_rule(rule_r3, repo)
     check.run_rule(rule_r4, repo)
     from sa.rules import c11
